@@ -15,7 +15,7 @@ PROFILES = [('c08-nofail', 8000), ('c08', 12000), ('c08-flush', 8000)]
 
 
 def batches(tier):
-    k = 1 if tier == 'quick' else 12
+    k = 1 if tier == 'quick' else 40
     return [{'name': n, 'n': c * k, 'profile': n} for n, c in PROFILES]
 
 
